@@ -38,8 +38,9 @@ Init == /\ A \in [1..NP -> SUBSET (0..(NG - 1))]
         /\ B = Transpose(A, NG)
         /\ np = NP /\ ng = NG /\ outA = A /\ outB = B /\ inj = TRUE /\ nops = 0
 
-KeepLists(n) == UNION {[1..m -> 0..(n - 1)] : m \in 1..MaxKeep}
 Injective(k) == Cardinality(Range(k)) = Len(k)
+\* keep lists explored: every short list (repeats included) and every full reordering of the axis
+KeepLists(n) == (UNION {[1..m -> 0..(n - 1)] : m \in 1..MaxKeep}) \cup {k \in [1..n -> 0..(n - 1)] : Injective(k)}
 
 KeepPairs(k, inplace) ==
     /\ nops < MaxOps /\ np > 0 /\ k \in KeepLists(np)
